@@ -129,8 +129,13 @@ def rand_instance(rng, n_vars=None, max_deg=2, n_cons=None, n_removed=None, with
         cid += rng.randint(1, 5)
         cids.append(cid)
         removed.append([[constraint(cid, rng.choice([1, 2]), fn(allow_none=True), meta(rng, "r"))],
-                        "reason%d" % rng.randint(0, 3),
+                        "" if rng.random() < 0.2 else "reason%d" % rng.randint(0, 3),
                         sorted([["p%d" % i, str(rng.randint(0, 9))] for i in range(rng.randint(0, 2))])])
+    # constraint ids only have to be unique: the lists are not stored in ascending id order half of the time
+    if rng.random() < 0.5:
+        rng.shuffle(cons)
+    if rng.random() < 0.5:
+        rng.shuffle(removed)
     deps = []
     prev = []
     for k in dep_keys:
